@@ -69,6 +69,34 @@ class P(Prop):
             if self.too_many():
                 break
 
+        for i in range(n // 2):
+            c = self.gen_seq()
+            cj = c_to_json(c)
+            seed = self.rng.randint(0, 5)
+            flops = sorted(c.blackboxes)
+            iv = self.rng.choice([None, "0", "1", {f: self.rng.choice("01") for f in flops}])
+            afo, ru, steps = self.rng.random() < 0.5, self.rng.random() < 0.5, self.rng.randint(1, 3)
+            with ordered(seed):
+                o, r = call(cg.tx.sequential_unroll, c, steps, "d", "q", ["clk"], afo, iv, ru)
+            m = drv.ask({"op": "sequential_unroll", "c": cj, "n": steps, "d": "d", "q": "q", "ignore_pins": ["clk"],
+                         "add_flop_outputs": afo, "remove_unloaded": ru, "seed": seed,
+                         "initial_values": (None if iv is None else iv if isinstance(iv, str) else [[k, v] for k, v in iv.items()])})
+            self.corr_cases += 1
+            self.stats.bump(f"sequential_unroll:{o}")
+            d = ""
+            if m["outcome"] != o:
+                d = f"outcome impl={o} model={m['outcome']}"
+            elif o == "ok":
+                uc, io_map = r
+                d = cdiff(canon_c(uc), canon(m["c"]))
+                if not d and {k: v for k, v in m["io_map"]} != io_map:
+                    d = "io_map differs"
+            if d:
+                self.fail("corr", "sequential_unroll", d, {"c": cj, "n": steps, "add_flop_outputs": afo, "initial_values": iv,
+                                                           "remove_unloaded": ru, "seed": seed})
+            if self.too_many():
+                break
+
     # ------------------------------------------------------------------ oracles
     def check_unroll(self, c, steps, state_io):
         cj = c_to_json(c)
